@@ -500,6 +500,25 @@ func init() {
 							}
 							r.Count("evaluations_after_outcome_change", 1)
 						}
+						// the chain grows after it has been evaluated: the next evaluation is the evaluation of the longer chain
+						if k%4 == 0 && r.NumViolations() == 0 {
+							more := 1 + rng.Intn(3)
+							for j := 0; j < more; j++ {
+								v := c20random(rng)
+								chain = append(chain, v)
+								c20build(ck, t, len(chain)-1, v)
+							}
+							if ck.StepCount() != len(chain) {
+								c20violate(r, "random", idx, chain, "extended/step_count", fmt.Sprintf("StepCount=%d after the chain was extended to %d steps behind an evaluation", ck.StepCount(), len(chain)))
+							} else {
+								t.ev = t.ev[:0]
+								got := ck.CheckFailed()
+								if cl, why := c20judge(chain, t, got); cl != "" {
+									c20violate(r, "random", idx, chain, "extended/"+cl, "evaluation of a chain that was extended after it had been evaluated: "+why)
+								}
+							}
+							r.Count("chains_extended_after_evaluation", 1)
+						}
 					}
 					if L >= 2 {
 						r.Eval(sig.String())
